@@ -430,26 +430,45 @@ class AbsDomain:
         self.params = {p["id"]: p for p in self.prog.params(f)}
         self.local_arrays = {}      # var id -> size
         self.thresholds = sorted(set(self._consts(f)))
-        # single-assignment local pointers to an element of a const table: `const T *e = &TABLE[i];` reads through them are table reads
+        # local pointers that only ever point into one const table: initialised / assigned from `&TABLE[i]` or `TABLE + k` and
+        # otherwise only stepped (++, --, +=, -=); reads through them are table reads
         self.table_ptrs = {}
-        written = set()
+        cand = {}
+        bad = set()
+
+        def table_of(e):
+            e = strip(e, casts=True)
+            if e.get("kind") == "UnaryOperator" and e.get("opcode") == "&":
+                root = EFF.lvalue_root(kids(e)[0])[0]
+                return root if root in self.SENTINEL_TABLES else None
+            if e.get("kind") == "BinaryOperator" and e.get("opcode") in ("+", "-"):
+                return table_of(kids(e)[0])
+            if e.get("kind") == "DeclRefExpr" and ref_name(e) in self.SENTINEL_TABLES:
+                return ref_name(e)
+            return None
         for m in walk(self.prog.body(f)):
-            if m.get("kind") in ("BinaryOperator", "CompoundAssignOperator") and m.get("opcode", "").endswith("=") and \
-                    m.get("opcode") not in ("==", "!=", "<=", ">="):
+            if m.get("kind") == "VarDecl" and "*" in qtype(m):
+                if kids(m):
+                    t = table_of(kids(m)[-1])
+                    if t:
+                        cand.setdefault(m["name"], set()).add(t)
+                    else:
+                        bad.add(m["name"])
+            if m.get("kind") == "BinaryOperator" and m.get("opcode") == "=":
+                l = strip(kids(m)[0], casts=True)
+                if l.get("kind") == "DeclRefExpr" and "*" in qtype(l):
+                    t = table_of(kids(m)[1])
+                    if t:
+                        cand.setdefault(ref_name(l), set()).add(t)
+                    else:
+                        bad.add(ref_name(l))
+            if m.get("kind") == "UnaryOperator" and m.get("opcode") == "&":
                 l = strip(kids(m)[0], casts=True)
                 if l.get("kind") == "DeclRefExpr":
-                    written.add(ref_name(l))
-            if m.get("kind") == "UnaryOperator" and m.get("opcode") in ("++", "--"):
-                l = strip(kids(m)[0], casts=True)
-                if l.get("kind") == "DeclRefExpr":
-                    written.add(ref_name(l))
-        for m in walk(self.prog.body(f)):
-            if m.get("kind") == "VarDecl" and "*" in qtype(m) and kids(m):
-                i = strip(kids(m)[-1], casts=True)
-                if i.get("kind") == "UnaryOperator" and i.get("opcode") == "&":
-                    root = EFF.lvalue_root(kids(i)[0])[0]
-                    if root in self.SENTINEL_TABLES and m["name"] not in written:
-                        self.table_ptrs[m["name"]] = root
+                    bad.add(ref_name(l))        # address taken: anything may happen to it
+        for nm, ts in cand.items():
+            if nm not in bad and len(ts) == 1:
+                self.table_ptrs[nm] = next(iter(ts))
 
     def _consts(self, f):
         out = [0, 1]
@@ -672,9 +691,20 @@ class AbsDomain:
             return r, s
         if k == "ConditionalOperator":
             _, s = self._ev(ks[0], s)
-            a, s1 = self._ev(ks[1], dict(s))
-            b, s2 = self._ev(ks[2], dict(s))
-            return a.join(b), self.join(s1, s2)
+            # each arm is evaluated under its condition (`x > n ? n : x` is at most n)
+            from .flow import Flow
+            fl = Flow(self)
+            st = fl.cond(ks[0], True, dict(s))
+            sf = fl.cond(ks[0], False, dict(s))
+            outs = []
+            for arm, sx in ((ks[1], st), (ks[2], sf)):
+                if sx is not None:
+                    outs.append(self._ev(arm, sx))
+            if not outs:
+                return TOP, s
+            if len(outs) == 1:
+                return outs[0]
+            return outs[0][0].join(outs[1][0]), self.join(outs[0][1], outs[1][1])
         if k == "CallExpr":
             return self._call(e0, s)
         if k == "ArraySubscriptExpr":
